@@ -620,12 +620,48 @@ def m_ends_with(I, st, inst, args):
     return I.norm(z3.SuffixOf(tosym(b), tosym(a)), None)
 
 
-@model("std::str::<impl str>::trim", "core::str::<impl str>::trim")
+@model("std::str::<impl str>::trim", "core::str::<impl str>::trim", "std::str::<impl str>::trim_start", "core::str::<impl str>::trim_start",
+       "std::str::<impl str>::trim_end", "core::str::<impl str>::trim_end")
 def m_trim(I, st, inst, args):
     a = str_of(I, st, args[0])
+    front = not inst.name.endswith("trim_end")
+    back = not inst.name.endswith("trim_start")
     if isinstance(a, str):
-        return new_str_ptr(I, st, a.strip())
-    raise Unsupported("trim of symbolic string")
+        r = a.strip() if (front and back) else (a.lstrip() if front else a.rstrip())
+        return new_str_ptr(I, st, r)
+    if isinstance(a, ByteSeq):
+        # symbolic ASCII bytes: fork on how many white-space bytes there are at each end
+        def ws(b):
+            if isinstance(b, int):
+                return b in (9, 10, 11, 12, 13, 32)
+            return z3.Or(b == 32, z3.And(z3.UGE(b, 9), z3.ULE(b, 13)))
+        p = args[0]
+        n = len(a.b)
+        results = []
+        work = [(st, 0)]
+        fronts = []
+        while work:
+            s, i = work.pop()
+            if not front or i == n:
+                fronts.append((s, i))
+                continue
+            for s2, bv in _bool_alts(I, s, ws(a.b[i])):
+                (work if bv else fronts).append((s2, i + 1) if bv else (s2, i))
+        for s, i in fronts:
+            work = [(s, n)]
+            while work:
+                s2, j = work.pop()
+                if not back or j == i:
+                    results.append((s2, i, j))
+                    continue
+                for s3, bv in _bool_alts(I, s2, ws(a.b[j - 1])):
+                    if bv:
+                        work.append((s3, j - 1))
+                    else:
+                        results.append((s3, i, j))
+        base = Ptr(p.cell, p.path)
+        return Forks([(s, I.index_sub(base, i, j)) for s, i, j in results])
+    raise Unsupported("trim of a z3 string")
 
 
 @model("std::str::<impl str>::trim_start_matches::<&str>", "core::str::<impl str>::trim_start_matches::<&str>")
@@ -1179,4 +1215,161 @@ def m_nonzero_from_str(I, st, inst, args):
                     alts.append((s2, okval))
         else:
             alts.append((s2, zero_err if v == 0 else okval))
+    return Forks(alts)
+
+
+# ---------------------------------------------------------------------------- hash / ordered maps and sets (association lists)
+def _bool_alts(I, st, cond):
+    """fork on a (possibly symbolic) boolean: list of (state, bool)"""
+    if isinstance(cond, bool):
+        return [(st, cond)]
+    t = I.feasible(st, cond)
+    f = I.feasible(st, z3.Not(cond))
+    out = []
+    if t and f:
+        s2 = st.fork()
+        I.add_pc(s2, cond)
+        out.append((s2, True))
+        I.add_pc(st, z3.Not(cond))
+        out.append((st, False))
+    elif t:
+        out.append((st, True))
+    else:
+        out.append((st, False))
+    return out
+
+
+def _key_eq(I, st, inst, a, b):
+    """equality of two keys (values) -> list of (state, bool | z3 Bool)"""
+    if isinstance(a, StringVal) and isinstance(b, StringVal):
+        return [(st, seq_eq(I, st, a.s, b.s))]
+    if isinstance(a, Opaque) and isinstance(b, Opaque) and a.kind == "Ident":
+        return [(st, seq_eq(I, st, a.data[0], b.data[0]))]
+    eqi = inst.aux.get("eq0") if inst is not None else None
+    if eqi is None:
+        raise Unsupported("no key equality for %r" % (a,))
+    ca = st.alloc(a)
+    cb = st.alloc(b)
+    out = []
+    for s2, r in I.call_sync(st, I.prog.insts[eqi], [Ptr(ca), Ptr(cb)]):
+        if isinstance(r, PanicExc):
+            raise Unsupported("panic in key eq")
+        out.append((s2, r))
+    return out
+
+
+def _find_key(I, st, inst, keys, k):
+    """position of k among keys -> list of (state, index | None)"""
+    work = [(st, 0)]
+    done = []
+    while work:
+        s, i = work.pop()
+        if i == len(keys):
+            done.append((s, None))
+            continue
+        for s2, c in _key_eq(I, s, inst, keys[i], k):
+            for s3, bv in _bool_alts(I, s2, c):
+                if bv:
+                    done.append((s3, i))
+                else:
+                    work.append((s3, i + 1))
+    return done
+
+
+def _deref_key(I, st, p):
+    v = I.read(st, p, expand_scalar=False) if isinstance(p, Ptr) else p
+    if isinstance(v, Lazy):
+        v = I.lazy.expand(I, st, v, p if isinstance(p, Ptr) else None)
+    if isinstance(v, Ptr):   # &str keys etc.
+        return v
+    return v
+
+
+@model("std::collections::HashMap::<*>::new", "std::collections::HashMap::<*>::with_capacity", "std::collections::HashMap::<*>::with_capacity_and_hasher",
+       "std::collections::HashMap::<*>::with_hasher", "std::collections::BTreeMap::<*>::new", "<std::collections::HashMap<*> as std::default::Default>::default",
+       "<std::collections::BTreeMap<*> as std::default::Default>::default")
+def m_map_new(I, st, inst, args):
+    return Opaque("Map", ())
+
+
+@model("std::collections::HashSet::<*>::new", "std::collections::HashSet::<*>::with_capacity", "std::collections::HashSet::<*>::with_capacity_and_hasher",
+       "std::collections::HashSet::<*>::with_hasher", "std::collections::BTreeSet::<*>::new", "<std::collections::HashSet<*> as std::default::Default>::default",
+       "<std::collections::BTreeSet<*> as std::default::Default>::default")
+def m_set_new(I, st, inst, args):
+    return Opaque("Set", ())
+
+
+@model("<std::hash::RandomState as std::default::Default>::default", "std::hash::RandomState::new", "<fnv::FnvBuildHasher as std::default::Default>::default",
+       "<std::hash::BuildHasherDefault<*> as std::default::Default>::default")
+def m_random_state(I, st, inst, args):
+    return Opaque("Hasher", None)
+
+
+@model("std::collections::HashSet::<*>::contains::<*>", "std::collections::BTreeSet::<*>::contains::<*>", aux="eq:0")
+def m_set_contains(I, st, inst, args):
+    s = I.read(st, args[0])
+    k = _deref_key(I, st, args[1])
+    return Forks([(s2, idx is not None) for s2, idx in _find_key(I, st, inst, list(s.data), k)])
+
+
+@model("std::collections::HashSet::<*>::insert", "std::collections::BTreeSet::<*>::insert", aux="eq:0")
+def m_set_insert(I, st, inst, args):
+    s = I.read(st, args[0])
+    alts = []
+    for s2, idx in _find_key(I, st, inst, list(s.data), args[1]):
+        if idx is None:
+            cur = I.read(s2, args[0])
+            I.write(s2, args[0], Opaque("Set", cur.data + (args[1],)))
+            alts.append((s2, True))
+        else:
+            alts.append((s2, False))
+    return Forks(alts)
+
+
+@model("std::collections::HashSet::<*>::len", "std::collections::BTreeSet::<*>::len", "std::collections::HashMap::<*>::len", "std::collections::BTreeMap::<*>::len")
+def m_coll_len(I, st, inst, args):
+    return len(I.read(st, args[0]).data)
+
+
+@model("std::collections::HashSet::<*>::is_empty", "std::collections::BTreeSet::<*>::is_empty", "std::collections::HashMap::<*>::is_empty",
+       "std::collections::BTreeMap::<*>::is_empty")
+def m_coll_is_empty(I, st, inst, args):
+    return len(I.read(st, args[0]).data) == 0
+
+
+@model("std::collections::HashMap::<*>::insert", "std::collections::BTreeMap::<*>::insert", aux="eq:0")
+def m_map_insert(I, st, inst, args):
+    m = I.read(st, args[0])
+    keys = [kv[0] for kv in m.data]
+    alts = []
+    for s2, idx in _find_key(I, st, inst, keys, args[1]):
+        cur = I.read(s2, args[0])
+        if idx is None:
+            I.write(s2, args[0], Opaque("Map", cur.data + ((args[1], args[2]),)))
+            alts.append((s2, NONE))
+        else:
+            old = cur.data[idx][1]
+            I.write(s2, args[0], Opaque("Map", cur.data[:idx] + ((cur.data[idx][0], args[2]),) + cur.data[idx + 1:]))
+            alts.append((s2, mk_option(old)))
+    return Forks(alts)
+
+
+@model("std::collections::HashMap::<*>::contains_key::<*>", "std::collections::BTreeMap::<*>::contains_key::<*>", aux="eq:0")
+def m_map_contains_key(I, st, inst, args):
+    m = I.read(st, args[0])
+    k = _deref_key(I, st, args[1])
+    return Forks([(s2, idx is not None) for s2, idx in _find_key(I, st, inst, [kv[0] for kv in m.data], k)])
+
+
+@model("std::collections::HashMap::<*>::get::<*>", "std::collections::BTreeMap::<*>::get::<*>", aux="eq:0")
+def m_map_get(I, st, inst, args):
+    m = I.read(st, args[0])
+    k = _deref_key(I, st, args[1])
+    alts = []
+    for s2, idx in _find_key(I, st, inst, [kv[0] for kv in m.data], k):
+        if idx is None:
+            alts.append((s2, NONE))
+        else:
+            c = s2.alloc(m.data[idx][1])
+            alts.append((s2, mk_option(Ptr(c))))
     return Forks(alts)
